@@ -51,11 +51,10 @@ VARIABLES init,   \* [Sigs -> {"D","I"}]  disposition inherited at start-up
           blk,    \* [Sigs -> BOOLEAN]  signal mask of the process
           kp,     \* [Sigs -> BOOLEAN]  pending (blocked, undelivered) in the kernel
           proc,   \* "R" running, "K" killed by a signal, "S" stopped by a signal
-          nov,    \* no set_action with override_ignore so far ("non-interactive")
           h       \* history of operations (hidden by VIEW)
 
-vars == <<init, ent, sys, blk, kp, proc, nov, h>>
-view == <<init, ent, sys, blk, kp, proc, nov>>
+vars == <<init, ent, sys, blk, kp, proc, h>>
+view == <<init, ent, sys, blk, kp, proc>>
 
 Vacant      == [act |-> "V", orig |-> "-", pend |-> FALSE, par |-> "N", int |-> "D"]
 \* TrapState::from_initial_disposition
@@ -70,7 +69,6 @@ Init == /\ init \in [Sigs -> {"D", "I"}]
         /\ blk = [s \in Sigs |-> FALSE]
         /\ kp = [s \in Sigs |-> FALSE]
         /\ proc = "R"
-        /\ nov = TRUE
         /\ h = <<>>
 
 -----------------------------------------------------------------------------
@@ -151,19 +149,17 @@ ClearParents(en) == [c \in Conds |-> [en[c] EXCEPT !.par = "N"]]
 \* TrapSet::set_action
 SetAction(c, a, ov) ==
   /\ IF c \in {"KILL", "STOP"}
-     THEN /\ Finish(ent, K0, Op("set_action", c, a, ov, FALSE, FALSE, "SIG" \o c))
-          /\ UNCHANGED nov
+     THEN Finish(ent, K0, Op("set_action", c, a, ov, FALSE, FALSE, "SIG" \o c))
      ELSE LET en == ClearParents(ent)
               x  == GS_SetAction(en[c], K0, c, a, ov)
-          IN /\ Finish([en EXCEPT ![c] = x.e], x.k, Op("set_action", c, a, ov, FALSE, FALSE, x.r))
-             /\ nov' = (nov /\ ~ov)
+          IN Finish([en EXCEPT ![c] = x.e], x.k, Op("set_action", c, a, ov, FALSE, FALSE, x.r))
   /\ UNCHANGED init
 
 \* TrapSet::peek_state
 Peek(c) ==
   /\ Finish(IF IsVac(ent[c]) THEN [ent EXCEPT ![c] = FromInit(IF c = "EXIT" THEN "D" ELSE sys[c])] ELSE ent,
             K0, Op("peek", c, "", FALSE, FALSE, FALSE, "ok"))
-  /\ UNCHANGED <<init, nov>>
+  /\ UNCHANGED init
 
 \* a sequence of set_internal_disposition calls, as <<signal, disposition>> pairs
 RECURSIVE SetInternals(_, _, _)
@@ -177,7 +173,7 @@ SetInternals(en, k, todo) ==
 Internal(name, todo) ==
   /\ LET x == SetInternals(ent, K0, todo)
      IN Finish(x.e, x.k, Op(name, "", "", FALSE, FALSE, FALSE, "ok"))
-  /\ UNCHANGED <<init, nov>>
+  /\ UNCHANGED init
 
 TermOn   == << <<"INT", "C">>, <<"TERM", "I">>, <<"QUIT", "I">> >>
 TermOff  == << <<"INT", "D">>, <<"TERM", "D">>, <<"QUIT", "D">> >>
@@ -220,7 +216,7 @@ EnterSubshell(ii, ks) ==
          x == SubshellLoop(en, K0, {c \in Conds : ~IsVac(en[c])}, ii, ks)
          y == IF ii THEN IgnoreLoop(x.e, x.k, <<"INT", "QUIT">>) ELSE x
      IN Finish(y.e, y.k, Op("enter_subshell", "", "", FALSE, ii, ks, "ok"))
-  /\ UNCHANGED <<init, nov>>
+  /\ UNCHANGED init
 
 \* kill(2) to the shell process (Process::raise_signal)
 Deliver(s) ==
@@ -230,7 +226,7 @@ Deliver(s) ==
           IN /\ d # "C"       \* Catch => blocked (outside select), see CatchIffBlocked
              /\ Finish(ent, IF d = "D" THEN [K0 EXCEPT !.proc = Effect(s)] ELSE K0,
                        Op("deliver", s, "", FALSE, FALSE, FALSE, "ok"))
-  /\ UNCHANGED <<init, nov>>
+  /\ UNCHANGED init
 
 \* Env::poll_signals: select() with the caught signals unblocked, then
 \* TrapSet::catch_signal for each signal collected
@@ -239,13 +235,13 @@ Poll ==
      IN Finish([c \in Conds |-> IF c \in got /\ ~IsVac(ent[c]) THEN [ent[c] EXCEPT !.pend = TRUE] ELSE ent[c]],
                [K0 EXCEPT !.kp = [s \in Sigs |-> FALSE]],
                Op("poll", "", "", FALSE, FALSE, FALSE, IF got = {} THEN "none" ELSE "some"))
-  /\ UNCHANGED <<init, nov>>
+  /\ UNCHANGED init
 
 \* TrapSet::catch_signal
 CatchSignal(s) ==
   /\ Finish(IF IsVac(ent[s]) THEN ent ELSE [ent EXCEPT ![s].pend = TRUE], K0,
             Op("catch", s, "", FALSE, FALSE, FALSE, "ok"))
-  /\ UNCHANGED <<init, nov>>
+  /\ UNCHANGED init
 
 \* TrapSet::take_caught_signal: first pending signal in map order
 Take ==
@@ -253,14 +249,14 @@ Take ==
      IN IF P = {} THEN Finish(ent, K0, Op("take", "", "", FALSE, FALSE, FALSE, "none"))
         ELSE LET s == MinCond(P)
              IN Finish([ent EXCEPT ![s].pend = FALSE], K0, Op("take", "", "", FALSE, FALSE, FALSE, s))
-  /\ UNCHANGED <<init, nov>>
+  /\ UNCHANGED init
 
 \* TrapSet::take_signal_if_caught
 TakeIf(s) ==
   /\ IF ~IsVac(ent[s]) /\ ent[s].pend
      THEN Finish([ent EXCEPT ![s].pend = FALSE], K0, Op("take_if", s, "", FALSE, FALSE, FALSE, s))
      ELSE Finish(ent, K0, Op("take_if", s, "", FALSE, FALSE, FALSE, "none"))
-  /\ UNCHANGED <<init, nov>>
+  /\ UNCHANGED init
 
 Next ==
   /\ proc = "R"
@@ -300,12 +296,23 @@ CatchIffBlocked == proc = "R" => \A s \in Sigs : (sys[s] = "C") = blk[s]
 PendingOnlyIfBlocked == \A s \in Sigs : kp[s] => blk[s]
 
 \* in a non-interactive shell a signal ignored on entry can be neither trapped
-\* nor reset
+\* nor reset.  "Still ignored since entry" = inherited Ignore and no entry, or
+\* an entry of inherited origin; only a set_action with override (interactive
+\* shell) takes a signal out of that condition.
+StillIgnoredSinceEntry(s) == init[s] = "I" /\ (IsVac(ent[s]) \/ ent[s].orig = "I")
 InitiallyIgnoredSticks ==
-  (proc = "R" /\ nov) => \A s \in Sigs : init[s] = "I" =>
-      /\ IsVac(ent[s]) \/ (ent[s].act = "I" /\ ent[s].orig = "I")
+  proc = "R" => \A s \in Sigs : StillIgnoredSinceEntry(s) =>
+      /\ IsVac(ent[s]) \/ ent[s].act = "I"
       /\ sys[s] # "D"
       /\ sys[s] = "C" => ent[s].int = "C"
+InitiallyIgnoredRefused ==
+  [][proc' = "R" => \A s \in Sigs : StillIgnoredSinceEntry(s) =>
+       LET o == h'[Len(h')] IN
+       IF o.op = "set_action" /\ o.c = s /\ o.ov
+       THEN o.r = "ok"
+       ELSE /\ (IsVac(ent'[s]) \/ ent'[s].orig = "I")          \* still in that condition
+            /\ (o.op = "set_action" /\ o.c = s) => (o.r = "ignored" /\ sys'[s] = sys[s])
+    ]_vars
 \* an entry says "inherited" only for what was inherited
 InheritedIsTrue ==
   \A s \in Sigs : ent[s].orig = "I" => ent[s].act = (IF init[s] = "I" THEN "I" ELSE "D")
